@@ -12,7 +12,8 @@ oracle      generated trees (1..40 entries) x argument sets (plan, plan --dry-ru
             the shim:
             (a) read-only: whole-tree snapshot (incl. .renamify) before/after; every *written path* of the trace must be
                 permitted for that command: the transient `.tmpXXXXXX` probe directory (created and removed inside the
-                run); for a non-dry `plan` also `.renamify/`, the lock file (created and removed) and the plan file;
+                run); for a non-dry `plan` also `.renamify/`, the lock file with its temp file (created and removed) and the
+                plan file;
                 with auto-init enabled the one-time `.gitignore` addition (exact text), never a second time;
             (b) deterministic: plan JSON without id / created_at (maps compared as maps) equal across all thread counts
                 and repeats of one (tree, arguments); `--preview table|diff|matches|summary` text equal likewise.
@@ -28,6 +29,7 @@ import shutil
 from . import common, gen, shim
 
 LOCK = ".renamify/renamify.lock"
+LOCKTMP = re.compile(r"^\.renamify/renamify\.lock\.\d+\.tmp$")
 PROBE = re.compile(r"^\.tmp[A-Za-z0-9]{6}(/test_case_a)?$")
 IGNORE_ADDITION = "# Renamify workspace\n.renamify/\n"
 _ID = re.compile(r"(?<![0-9a-f])[0-9a-f]{16}(?![0-9a-f])")
@@ -82,6 +84,8 @@ def classify_writes(events, op, dry, plan_path, autoinit_first):
             continue
         if not dry and op == "plan":
             if (e.path == ".renamify" and e.op == "mkdir") or (e.path == LOCK and e.op in ("openw", "write", "unlink")) \
+                    or (LOCKTMP.match(e.path) and e.op in ("openw", "write", "unlink")) \
+                    or (e.op == "link" and LOCKTMP.match(e.path) and e.path2 == LOCK) \
                     or (e.path == plan_path and e.op in ("openw", "write")):
                 continue
         bad.append(e)
@@ -161,7 +165,8 @@ def run_case(tree, name, args, dry, op, thread_counts, repeats, autoinit, preexi
                     shutil.rmtree(os.path.join(d, ".renamify"))
                     if preexisting:
                         os.makedirs(os.path.join(d, ".renamify"))
-                res["traces"].append((tag, writes_ignore, [list(x) for x in shim.abstract(r.events, logs="keep")]))
+                res["traces"].append((tag, writes_ignore, [[re.sub(r"renamify\.lock\.\d+\.tmp$", "renamify.lock.PID.tmp", y) for y in x]
+                                                           for x in shim.abstract(r.events, logs="keep")]))
                 first = False
     return res
 
